@@ -65,3 +65,96 @@ func VerifSetCreated(w StorageWriter, t int64) {
 		sw.created = t
 	}
 }
+
+// VerifLimiter gives the harness a size limiter without its goroutines: the real storage
+// struct, the real readFiles / purgeableItemNames / readStorableAccessTimes /
+// flushStorableAccessTimes, and a transcription of the three-line op switch and of the
+// post-purge bookkeeping of runSizeLimiter (which are inline in its loop).
+type VerifLimiter struct{ s *storage }
+
+func VerifNewLimiter(path string, maxSize int64, startedAt int64) *VerifLimiter {
+	return &VerifLimiter{s: &storage{
+		id: "verif", path: path, maxSizeBytes: maxSize, startedAt: startedAt,
+		itemsChan:             make(chan *itemWithOp, 16),
+		withAccessTime:        make(map[itemName]accessedItem),
+		storableAccessedItems: make(map[itemName]storableAccessedItem),
+		withoutAccessTime:     make(map[itemName]item),
+		atimesPath:            path + "/atimes",
+		logger:                verifDiscardLogger(),
+		now:                   time.Now,
+	}}
+}
+
+// Startup is the initialisation part of runSizeLimiter.
+func (l *VerifLimiter) Startup() {
+	l.s.readFiles(l.s.path)
+	withAccessTime, err := l.s.readStorableAccessTimes()
+	if err == nil {
+		for n, i := range withAccessTime {
+			l.s.withAccessTime[n] = i
+			delete(l.s.withoutAccessTime, n)
+		}
+	}
+}
+
+// Add is what storageWriter's closeFinisher + case opAdd do, with the clock reading given.
+func (l *VerifLimiter) Add(name string, size int64, nowUnix int64) {
+	ai := accessedItem{accessTime: accessTime(nowUnix - l.s.startedAt), sizeKilobytes: uint32(size / 1024)}
+	l.s.withAccessTime[itemName(name)] = ai
+	l.s.sizeBytes += int64(ai.sizeKilobytes * 1024)
+}
+
+// Access is what setAccessTime + case opAccessTime do, with the clock reading given.
+func (l *VerifLimiter) Access(name string, size int64, nowUnix int64) {
+	l.s.withAccessTime[itemName(name)] = accessedItem{accessTime(nowUnix - l.s.startedAt), uint32(size / 1024)}
+	l.s.storableAccessedItems[itemName(name)] = storableAccessedItem{nowUnix, uint32(size / 1024)}
+}
+
+func (l *VerifLimiter) Flush() { l.s.flushStorableAccessTimes() }
+
+// Purgeable runs the real purgeableItemNames for the current excess (nil lists when within the limit).
+func (l *VerifLimiter) Purgeable() (without []string, with []string) {
+	if l.s.sizeBytes <= l.s.maxSizeBytes {
+		return nil, nil
+	}
+	p := l.s.purgeableItemNames(l.s.sizeBytes - l.s.maxSizeBytes)
+	for _, n := range p.withoutAccessTimes {
+		without = append(without, string(n))
+	}
+	for _, n := range p.withAccessTimes {
+		with = append(with, string(n))
+	}
+	return without, with
+}
+
+// Removed is the bookkeeping runSizeLimiter does for the names it managed to remove.
+func (l *VerifLimiter) Removed(without []string, with []string) {
+	for _, n := range with {
+		sizeKb := l.s.withAccessTime[itemName(n)].sizeKilobytes
+		delete(l.s.withAccessTime, itemName(n))
+		l.s.sizeBytes -= int64(sizeKb * 1024)
+	}
+	for _, n := range without {
+		sizeKb := l.s.withoutAccessTime[itemName(n)].sizeKilobytes
+		delete(l.s.withoutAccessTime, itemName(n))
+		l.s.sizeBytes -= int64(sizeKb * 1024)
+	}
+}
+
+func (l *VerifLimiter) SizeBytes() int64 { return l.s.sizeBytes }
+
+func (l *VerifLimiter) WithAccessTime() map[string][2]int64 {
+	out := map[string][2]int64{}
+	for n, i := range l.s.withAccessTime {
+		out[string(n)] = [2]int64{int64(i.accessTime), int64(i.sizeKilobytes)}
+	}
+	return out
+}
+
+func (l *VerifLimiter) WithoutAccessTime() map[string]int64 {
+	out := map[string]int64{}
+	for n, i := range l.s.withoutAccessTime {
+		out[string(n)] = int64(i.sizeKilobytes)
+	}
+	return out
+}
